@@ -94,6 +94,16 @@ func repCases() []repCase {
 		}
 		add(op, []hx.Attr{hx.AInt("hidden_size", 2)}, n, "no-optional-inputs", f(1, 3, 2, 2), f(2, 1, ng*2, 2), f(3, 1, ng*2, 2))
 	}
+	// a sequence of one step (the step matrix IS the input then), batch 1, input size 1
+	for _, op := range []string{"RNN", "GRU", "LSTM"} {
+		ng := map[string]int{"RNN": 1, "GRU": 3, "LSTM": 4}[op]
+		n := 2
+		if op == "LSTM" {
+			n = 3
+		}
+		add(op, []hx.Attr{hx.AInt("hidden_size", 2)}, n, "single-step(1,2,3)", f(1, 1, 2, 3), f(2, 1, ng*2, 3), f(3, 1, ng*2, 2), f(4, 1, 2*ng*2))
+		add(op, []hx.Attr{hx.AInt("hidden_size", 2)}, n, "single-step-batch1(1,1,1)", f(1, 1, 1, 1), f(2, 1, ng*2, 1), f(3, 1, ng*2, 2))
+	}
 	add("GRU", []hx.Attr{hx.AInt("hidden_size", 2), hx.AInt("linear_before_reset", 1)}, 2, "linear_before_reset", f(1, 3, 2, 2), f(2, 1, 6, 2), f(3, 1, 6, 2), f(4, 1, 12))
 	add("Conv", []hx.Attr{hx.AInts("pads", 1, 0, 0, 2), hx.AInts("dilations", 1, 2)}, 1, "2D-no-bias-asymmetric-pads", f(1, 1, 2, 3, 4), f(2, 2, 2, 2, 2))
 	add("Softmax", []hx.Attr{hx.AInt("axis", -1)}, 1, "last-axis", f(1, 2, 3))
@@ -230,6 +240,15 @@ func repCases() []repCase {
 	add("ReduceMax", []hx.Attr{hx.AInts("axes", 1), hx.AInt("keepdims", 0)}, 1, "large(2,300,31)", f(1, 2, 300, 31))
 	add("Concat", []hx.Attr{hx.AInt("axis", 1)}, 1, "large(2,4000)+(2,4200)", f(1, 2, 4000), f(2, 2, 4200))
 	add("Relu", nil, 1, "large(3,21851)", f(1, 3, 21851))
+	// large tensors through operators that only rearrange: above some size a copy is tempting to avoid
+	add("Expand", nil, 1, "large-leading-axis(70000)->(1,70000)", f(1, 70000), ref.I64Vec(1, 70000))
+	add("Unsqueeze", nil, 1, "large(70000)", f(1, 70000), ref.I64Vec(0))
+	add("Reshape", nil, 1, "large(70000)->(7,10000)", f(1, 70000), ref.I64Vec(7, 10000))
+	add("Squeeze", nil, 1, "large(1,70000)", f(1, 1, 70000), ref.I64Vec(0))
+	add("Flatten", []hx.Attr{hx.AInt("axis", 1)}, 1, "large(2,5,7000)", f(1, 2, 5, 7000))
+	add("Slice", nil, 1, "large-whole(70000)", f(1, 70000), ref.I64Vec(0), ref.I64Vec(70000), ref.I64Vec(0), ref.I64Vec(1))
+	add("Gather", []hx.Attr{hx.AInt("axis", 0)}, 1, "large-rows(3,30000)", f(1, 3, 30000), ref.I64Vec(0, 1, 2))
+	add("Cast", []hx.Attr{hx.AInt("to", 1)}, 1, "large-same-type(70000)", f(1, 70000))
 	add("Reshape", nil, 1, "", f(1, 2, 3), ref.I64Vec(3, -1))
 	add("Flatten", []hx.Attr{hx.AInt("axis", 1)}, 1, "", f(1, 2, 3, 2))
 	add("Squeeze", nil, 1, "", f(1, 2, 1, 3), ref.I64Vec(1))
